@@ -153,7 +153,9 @@ class Loop:
                 raise Stop()
             ev = self.script[self.pos]
             if ev['type'] == 'lazy':          # concrete bytes depend on the state of the session: built when reached
-                ev = hostile_event(ev['kind'], self, self.rnd)
+                ev = hostile_event(ev['kind'], self, self.rnd, prepared=ev.get('prepared', False))
+                if isinstance(ev, list) and len(self.script) > 5000:
+                    raise common.MachineryError('scripted environment keeps growing')
                 if isinstance(ev, list):      # a hostile kind that needs a preparing event: both are handled by the loop, one after the other
                     self.script[self.pos:self.pos + 1] = ev
                     ev = self.script[self.pos]
@@ -272,7 +274,7 @@ def init_request(spi, src_note='', vendor=b'verif', extra=()):
     return W.enc_message({'spi_i': spi, 'spi_r': b'\0' * 8, 'xchg': 34, 'response': False, 'initiator': True, 'mid': 0}, pl)
 
 
-def hostile_event(kind, loop, rnd):
+def hostile_event(kind, loop, rnd, prepared=False):
     """One concrete instance of an abstract hostile kind, built for the current state of the world."""
     w = loop.w
     sa_b = next((s for s in w.sas('B') if s.my_crypto is not None), None)
@@ -285,6 +287,10 @@ def hostile_event(kind, loop, rnd):
     if kind == 'unconfigured_src':
         return udp(init_request(b'\x70' * 8), src='192.168.0.99')
     if kind == 'init_existing_spi':
+        # while the legitimate peer's own IKE_SA_INIT is unanswered, a request forged with its SPI *and* its source address draws an answer that its
+        # initiator accepts: an active attack on that handshake (C02), not noise.  In that window the forged request comes from the other configured address.
+        if sa_b is None:
+            return udp(init_request(known[0]), src=wd.addr_of('C'))
         return udp(init_request(known[0]))
     if kind == 'unknown_exchange':
         return udp(W.enc_header(known[0], known[1], 0, 2, 0, 99, 0x08, 0, 28))
@@ -329,8 +335,10 @@ def hostile_event(kind, loop, rnd):
     if kind == 'half_open_wrong_spi':
         # a half-open initiator IKE_SA (towards the silent peer) has no keys yet and expects SPIr = 0: anybody can address it with any other SPIr
         half = next((x for x in w.sas('A') if x.is_initiator and x.my_crypto is None), None)
-        if half is None:
-            return [hostile_event('acquire_silent_peer', loop, rnd), {'type': 'lazy', 'kind': 'half_open_wrong_spi'}]
+        if half is None and not prepared:
+            return [hostile_event('acquire_silent_peer', loop, rnd), {'type': 'lazy', 'kind': 'half_open_wrong_spi', 'prepared': True}]
+        if half is None:           # the ACQUIRE left no half-open IKE_SA behind (e.g. its transmission failed): address nobody
+            return udp(W.enc_header(b'\x5c' * 8, b'\x5b' * 8, 0, 2, 0, 37, 0x20, 0, 28), src=wd.addr_of('C'))
         x = rnd.choice((35, 36, 37))
         return udp(W.enc_header(half.my_spi, b'\x5b' * 8, 0, 2, 0, x, 0x20, 0 if x != 36 else 1, 28), src=wd.addr_of('C'))
     if kind == 'loop_payload':
